@@ -52,9 +52,25 @@ def _substrate(kind, key, coin, path, k):
         o = o.ChildKey(e)
     if k < len(elems):
         o.ConvertToPublic()
-        for e in elems[k:]:
+    rest = elems[k:]
+
+    def chain(o):
+        for e in rest:
             o = o.ChildKey(e)
-    return _out(o)
+        return o
+    # the same walk through every documented route: junction by junction, DerivePath(text), DerivePath(path object)
+    from bip_utils import SubstratePath
+    outs = []
+    for route in (chain, lambda o: o.DerivePath("".join(e.ToStr() for e in rest)), lambda o: o.DerivePath(SubstratePath(rest))):
+        try:
+            outs.append(_out(route(o)))
+        except Exception as ex:  # noqa
+            outs.append("!" + exc_kind(ex))
+    if len(set(outs)) != 1:
+        return "ARGUMENT-FORM-DEPENDENT ChildKey chain: %s | DerivePath(str): %s | DerivePath(SubstratePath): %s" % tuple(x[:120] for x in outs)
+    if outs[0].startswith("!"):
+        return chain(o) and ""
+    return outs[0]
 
 
 def _subpath(s):
